@@ -5,6 +5,7 @@ Property theorems only.
 import H263V.Model.State
 import H263V.Spec.Recon
 import H263V.Spec.Vlc
+import H263V.Lemmas.RlePlacement
 namespace H263V.Thm.C11
 open H263V H263V.Rle H263V.State
 
@@ -70,5 +71,51 @@ theorem escape_level_roundtrip (n : Nat) (hn : n = 7 ∨ n = 8 ∨ n = 11) (l : 
     signExtend n (if l < 0 then (l + (2 ^ n : Nat)).toNat else l.toNat) = l := by
   unfold signExtend
   rcases hn with h | h | h <;> subst h <;> simp at hl ⊢ <;> split <;> omega
+
+
+open H263V.Lemmas.RlePlacement in
+/-- **Placement.**  The `k`-th coded coefficient of a block lands at zig-zag position
+`start + (runs and coefficients before it) + its own run` (`start` = 1 after an INTRADC, else 0), i.e. at raster index
+`rasterOf` of that position in the regenerated (= classical, `zigzag_table`) scan, and holds the dequantised level; positions no
+event lands on keep what they had (zero, or the INTRADC level at position 0); the block has 64 entries. -/
+theorem coefficient_placement (q : Nat) (b : Mb.Block) (data : List Int) (h : blockData b q = some data) :
+    data.length = 64 ∧
+    (∀ k (hk : k < b.tcoef.length), posOf (initState b).zz b.tcoef k < 64 ∧
+      data.getD (rasterOf (posOf (initState b).zz b.tcoef k)) 0 = dequant q (b.tcoef[k]).level) ∧
+    (∀ i, i < 64 → lookupPos (initState b).zz b.tcoef i = none → data.getD (rasterOf i) 0 = (initState b).data.getD (rasterOf i) 0) := by
+  unfold blockData at h
+  cases hl : rleLoop q b.tcoef (initState b) with
+  | none => rw [hl] at h; simp at h
+  | some s =>
+    rw [hl] at h
+    simp only [Option.map_some, Option.some.injEq] at h
+    subst h
+    have hlen : (initState b).data.length = 64 := by unfold initState; split <;> simp
+    obtain ⟨h1, h2⟩ := rleLoop_data q _ _ s hlen hl
+    refine ⟨h1, ?_, ?_⟩
+    · intro k hk
+      have hp : posOf (initState b).zz b.tcoef k < 64 := by
+        have h3 : ¬ (64 ≤ posOf (initState b).zz b.tcoef k) := fun hge => by
+          have := (rleLoop_none_iff q b.tcoef (initState b)).mpr ⟨k, hk, hge⟩
+          rw [hl] at this; simp at this
+        omega
+      refine ⟨hp, ?_⟩
+      rw [h2 _ hp, lookup_posOf _ _ k hk]
+    · intro i hi hn
+      rw [h2 i hi, hn]
+
+open H263V.Lemmas.RlePlacement in
+/-- The block is dropped (left as it was) exactly when some event's position leaves the 64 coefficients. -/
+theorem block_dropped_iff (q : Nat) (b : Mb.Block) :
+    blockData b q = none ↔ ∃ k, k < b.tcoef.length ∧ 64 ≤ posOf (initState b).zz b.tcoef k := by
+  unfold blockData
+  rw [← rleLoop_none_iff q b.tcoef (initState b)]
+  cases rleLoop q b.tcoef (initState b) <;> simp
+
+open H263V.Lemmas.RlePlacement in
+/-- **The sparse shapes are lossless.**  Whatever `inverse_rle` stores for a block — `Zero`, `Dc`, `Horiz` (first row), `Vert`
+(first column) or `Full` — stands for exactly the block's 64 reconstruction levels. -/
+theorem shapes_lossless (b : Mb.Block) (q : Nat) : (inverseRleBlock b q).map expand = blockData b q :=
+  inverseRleBlock_lossless b q
 
 end H263V.Thm.C11
